@@ -1264,7 +1264,10 @@ impl ArchetypeSet {
         // ordered, we can identify elements in one but not the other efficiently with parallel
         // iteration.
         let mut src_ty = 0;
-        for ty in components.type_info() {
+        let new_types = components.type_info();
+        // A repeated type would otherwise be counted as replacing the same component twice
+        Archetype::assert_type_info(&new_types);
+        for ty in new_types {
             while src_ty < arch.types().len() && arch.types()[src_ty] <= ty {
                 if arch.types()[src_ty] != ty {
                     retained.push(arch.types()[src_ty]);
